@@ -93,10 +93,22 @@ PROPS["C06"] = {
     "technique": "contract-based VC generation over gate polynomials (ideal membership by Groebner reduction)",
     "design_ref": "DESIGN.md section 5, C06",
 }
+PROPS["C05"] = {
+    "units": {"verus": ["c05_biguint_bounds"]},
+    "scope": "one bookkeeping kernel of the BigUint gadget: the size-bound arithmetic that decides when lazily-normalised limbs must be renormalised",
+    "not_decided": ["the CRT identity and get_identity_auxiliary_bounds of the foreign-field chip (BigInt + closures: not ingestible without rewriting, which would be a model)",
+                    "every foreign-field / BigUint gate, range check, quotient and carry constraint", "equality / public-input exposure of emulated elements"],
+    "trusted_base": [],
+    "assumptions": ["std::cmp::max returns the larger argument (assume_specification; vstd has none)"],
+    "claim": "Proof for one kernel only (thin by admission): bound_of_addition returns, for all inputs, a true upper bound on the bit size of a sum and the smallest such bound, without u32 overflow. A `max` without the `+ 1` keeps every honest-witness test green and makes the lazy normalisation unsound; that is what this contract pins down. The CRT identity, all gates, range checks and quotient/carry handling of the foreign-field and BigUint gadgets are NOT decided.",
+    "level_note": "Verus/Z3 on the function extracted verbatim; one assumed specification (std::cmp::max). Trusted: Verus+Z3, the extraction scanner.",
+    "technique": "Verus contract (requires/ensures over pow2 with soundness and minimality lemmas) on the extracted function",
+    "design_ref": "DESIGN.md section 5, C05",
+}
 
 # claimed in DESIGN.md, machinery not built yet in this revision
 PENDING = {}
-for _p in ("C05",):
+for _p in ():
     PENDING[_p] = "planned in DESIGN.md section 5 but the check is not built yet in this revision; not claimed until it is"
 
 NOT_APPLICABLE = {
